@@ -6,7 +6,8 @@ from vf.core import Ctx
 
 
 def run(ctx: Ctx) -> None:
-    run_family(ctx, 'C11', 'c11', 400, 12000)
+    from props.respfam import d22_scenarios
+    run_family(ctx, 'C11', 'c11', 400, 12000, d22_scenarios('C11'))
 
 
 def replay(ctx: Ctx, path: str) -> None:
